@@ -137,7 +137,7 @@ for (n, ft, isf, tier) in [('double', 'double', '0', 'quick'), ('float', 'float'
                               Check('nearest', 'h_nearest', engine='D', flags=FL, timeout=600, inputs=('p.x', 'p.y', 'v.w', 'v.h')),
                               Check('bilinear', 'h_bilinear', engine='D', flags=FL, timeout=600, inputs=('p.x', 'p.y', 'v.w', 'v.h')),
                               Check('bilinear_weights', 'h_bilinear_weights', engine='D', flags=FL, timeout=600, inputs=('p.x', 'p.y', 'v.w', 'v.h')),
-                              Check('bilinear_wsum', 'h_bilinear_wsum', engine='D', flags=FL, timeout=3000, tier='thorough', inputs=('p.x', 'p.y', 'v.w', 'v.h')),
+                              # bilinear_wsum (the four weights sum to 1 for arbitrary points: sums of float products) timed out after 3000 s on every back end: not registered
                               Check('bilinear_integer', 'h_bilinear_integer', engine='D', flags=FL, timeout=900, inputs=('ix', 'iy', 'v.w', 'v.h'))],
                       preconditions=['sample point |coordinate| <= 10^6, view up to 10^5 x 10^5'],
                       assumed=['src.xy_at / ++loc.y() / *loc / loc.x()[1] move and read a locator at the stated offsets (C03 contracts); add_dst_mul_src accumulates weight * pixel channel-wise',
@@ -205,5 +205,6 @@ void h0_ifloor_d(void){ double x; ifloor_d(x); __CPROVER_assert(0, "VACUITY"); }
 for u in UNITS:
     if not u.name.startswith('cast.'):
         u.template = C
-META = dict(not_covered=['resample_pixels driver loop, resize_view identity, matrix3x2 algebra (floating-point identities up to rounding), lanczos scaling',
+META = dict(not_covered=['the four bilinear weights summing to exactly 1 for arbitrary (non-integer) points: sums of products of symbolic floats, 3000 s time-out (harness h_bilinear_wsum is kept in the template but not registered); proved: every weight in [0,1], total weight 1 at integer coordinates',
+                         'resample_pixels driver loop, resize_view identity, matrix3x2 algebra (floating-point identities up to rounding), lanczos scaling',
                          'the VALUE of the interpolation (weights times pixel values) beyond weights in [0,1] summing to 1 at neighbouring positions'])
